@@ -132,7 +132,9 @@ class SymWorld:
         self.notes.append(s)
 
     # numeric helpers usable in both worlds
-    def sqrt(self, a): return plain(a).sqrt() if is_sym(a) else math.sqrt(a)
+    def sqrt(self, a):
+        from .shim import s_sqrt
+        return s_sqrt(a)
     def abs(self, a): return abs(plain(a))
     def cis(self, om, k):
         """exp(i*k*omega)"""
@@ -248,7 +250,12 @@ def run_obligation(fn, params, name, timeout=20.0, fork=False, max_paths=64, vac
         out["notes"] += W.notes + W.run.log
         base = W.run.assumptions + W.run.side
         if vacuity:
-            r = solve.check(base + W.run.path, timeout=min(timeout, 10.0), want_model=False, portfolio=False)
+            r = solve.check(base + W.run.path, timeout=min(timeout, 5.0), want_model=False, portfolio=False)
+            if r["verdict"] == "unknown":
+                # definitional side constraints (sqrt, algebraic constants) are total; retry on the preconditions alone
+                r2 = solve.check(W.run.assumptions + W.run.path, timeout=min(timeout, 10.0), want_model=False, portfolio=False)
+                if r2["verdict"] == "sat":
+                    r = dict(r2, verdict="sat", note="modulo definitional side constraints")
             if r["verdict"] == "unsat":
                 if dec in (None, []):
                     out["goals"].append({"goal": "<reachability>", "verdict": "vacuous", "time": r["time"]})
